@@ -104,6 +104,12 @@ def gen_cases(rng, tier):
         c["tags"] = ["rate-application"]
         c["delegate"] = "C10"
         cases.append(c)
+    # quantize / round() at the level of quantities (C13's generator): in a
+    # quantised type the result is put on the unit's grid, once
+    from props import C13
+    for c in [c for c in C13.gen_cases(rng, "quick") if "quantity-level" in c["tags"]][:3]:
+        c["delegate"] = "C13q"
+        cases.append(c)
     # user-declared currencies (smallest fractions that are not powers of ten,
     # given alone or together with the minor unit): every amount on the grid
     from props import C08
@@ -143,6 +149,9 @@ def oracle(case, impl):
     if case.get("delegate") == "C10":
         from props import C10
         return [f for f in C10.oracle(case, impl) if f["site"] == "apply:money"]
+    if case.get("delegate") == "C13q":
+        from props import C13
+        return [f for f in C13.oracle(case, impl) if f["site"].startswith(("quantize:", "round:"))]
     if case.get("delegate") == "C08":
         from props import C08
         return [f for f in C08.oracle(case, impl) if f["site"] in ("money:grid", "cur:fraction")]
